@@ -48,7 +48,7 @@ impl JunosTlsServer {
             .build()
             .map_err(|e| e.to_string())?;
         let listener = rt
-            .block_on(TcpListener::bind("127.0.0.1:0"))
+            .block_on(async { net::bind_local() })
             .map_err(|e| e.to_string())?;
         let port = listener.local_addr().map_err(|e| e.to_string())?.port();
         let acceptor = {
